@@ -27,12 +27,13 @@ Print Assumptions C09_withdraw_identity.
 
 From Sge Require Import Proofs.GrantFacts.
 (* a delegated deposit/withdrawal requires an existing grant, never exceeds it and reduces it by exactly
-   the executed amount (deleted when used up) *)
-Theorem C09_grant : forall gs grantee granter kind amount gs',
-  use_grant gs grantee granter kind amount = Some gs' ->
+   the executed amount (deleted when used up; a grant expiring exactly at the block time can only be used up, as authz.NewGrant
+   refuses to re-save it) *)
+Theorem C09_grant : forall now gs grantee granter kind amount gs',
+  use_grant now gs grantee granter kind amount = Some gs' ->
   exists g, findb (grant_is grantee granter kind) gs = Some g /\ amount <= g_limit g /\
     ((g_limit g = amount /\ gs' = remb (grant_is grantee granter kind) gs) \/
-     (amount < g_limit g /\
+     (amount < g_limit g /\ (g_exp g < 0 \/ now < g_exp g) /\
       gs' = upd (grant_is grantee granter kind)
                 {| g_grantee := grantee; g_granter := granter; g_kind := kind; g_limit := g_limit g - amount; g_exp := g_exp g |} gs)).
 Proof. exact use_grant_spec. Qed.
